@@ -93,7 +93,7 @@ def registry() -> Dict[str, Check]:
         "C04", {"C04"},
         [Batch("B-mix", gen_b.gen_history, 15000, 400000, driver="B", budget_s=30.0),
          Batch("A-engine", gen_a.gen_engine, 3000, 40000, driver="A", budget_s=90.0, profile="engine_hostile"),
-         Batch("B-deep", gen_b.gen_deep, 64, 3000, driver="B", budget_s=300.0, profile="deep"),
+         Batch("B-deep", gen_b.gen_deep, 32, 2000, driver="B", budget_s=300.0, profile="deep"),
          Batch("A-scale", gen_a.gen_scale, 12, 240, driver="A", budget_s=600.0, profile="scale")],
         nontrivial=lambda s: s["stats"].get("expiries", 0) > 0 and s["stats"].get("cancels", 0) > 0,
         rule="Seeded driver-B histories / driver-A runs; non-trivial = at least one expiry and one cancel happened.",
@@ -104,7 +104,7 @@ def registry() -> Dict[str, Check]:
         "C08", {"C08"},
         [Batch("B-mix", gen_b.gen_history, 15000, 400000, driver="B", budget_s=30.0),
          Batch("A-engine", gen_a.gen_engine, 3000, 40000, driver="A", budget_s=90.0, profile="engine"),
-         Batch("B-deep", gen_b.gen_deep, 64, 3000, driver="B", budget_s=300.0, profile="deep"),
+         Batch("B-deep", gen_b.gen_deep, 32, 2000, driver="B", budget_s=300.0, profile="deep"),
          Batch("A-scale", gen_a.gen_scale, 12, 240, driver="A", budget_s=600.0, profile="scale")],
         nontrivial=lambda s: s["probes"].get("book_event_while_stopped", 0) > 0 and s["stats"].get("fills", 0) > 0,
         rule="Seeded driver-B histories / driver-A runs; non-trivial = book events happened while the market was not "
